@@ -134,7 +134,7 @@ def run_property(prop: str, tier: str) -> int:
     if len(violations) > 60:
         print(f"  ... and {len(violations) - 60} more refuted obligations")
     for ob in undecided[:20]:
-        print(f"UNDECIDED property={prop} obligation={ob.key} ({ob.status}: {ob.reason[:200]})")
+        print(f"UNDECIDED property={prop} obligation={ob.key} ({ob.status}: {(ob.reason or '')[:200]})")
     if undecided and rc == 0:
         rc = 2
     write_evidence(prop, tier, seed, obs, meta, known_hits, violations, undecided, time.time() - t0, mod)
